@@ -39,18 +39,19 @@ def insertBy (x : Node) : List Node → List Node
 /-- `sort.SliceStable(l, before)`. -/
 def isort (l : List Node) : List Node := l.foldr insertBy []
 
-/-- The search for the range of equal stakes (models.go:166-175):
+/-- The search for the range of equal stakes (models.go:166-175, since commit 51a7e0c with `-1` as the
+"not found yet" marker; before it `0` was the marker, so a range starting at index 0 was taken to start at 1):
 ```
-s, e := 0, len(newNodes)
+s, e := -1, len(newNodes)
 for i, sn := range newNodes {
-    if s == 0 && sn.TotalStaked == stake { s = i } else if sn.TotalStaked < stake { e = i; break }
+    if s < 0 && sn.TotalStaked == stake { s = i } else if sn.TotalStaked < stake { e = i; break }
 }
 ```
-`tieLoop stake rest i s e` runs the loop on the remaining elements `rest` starting at index `i`. -/
-def tieLoop (stake : Nat) : List Node → Nat → Nat → Nat → Nat × Nat
+`tieLoop stake rest i s e` runs the loop on the remaining elements `rest` starting at index `i`; `s = none` is `-1`. -/
+def tieLoop (stake : Nat) : List Node → Nat → Option Nat → Nat → Option Nat × Nat
   | [], _, s, e => (s, e)
   | sn :: rest, i, s, e =>
-    if s = 0 ∧ sn.stake = stake then tieLoop stake rest (i + 1) i e
+    if s.isNone = true ∧ sn.stake = stake then tieLoop stake rest (i + 1) (some i) e
     else if sn.stake < stake then (s, i)
     else tieLoop stake rest (i + 1) s e
 
@@ -94,9 +95,12 @@ def reduceN (cs : List Node) (limit : Nat) (q : Nat) (inPrev : Nat → Bool) (pe
   else if x < maxNodes then
     let y := maxNodes - x
     let stake := (new.getD (y - 1) default).stake
-    let se := tieLoop stake new 0 0 new.length
-    let sel1 := sel0 ++ new.take se.1
-    let tie := (new.drop se.1).take (se.2 - se.1)
+    let se := tieLoop stake new 0 none new.length
+    -- `stake` is the stake of `new[y-1]`, so the loop always finds a start (`Proofs/Reduce.tieLoop_of_sorted`);
+    -- with `s = -1` Go would panic on `newNodes[:s]`
+    let s := se.1.getD 0
+    let sel1 := sel0 ++ new.take s
+    let tie := (new.drop s).take (se.2 - s)
     ⟨maxNodes, pickLoop maxNodes tie (perms tie.length) sel1⟩
   else
     ⟨maxNodes, sel0⟩
